@@ -4,9 +4,9 @@ package main
 
 func init() {
 	register(&propSpec{
-		ID:    "C14",
-		Level: "other",
-		Run:   runC14,
+		ID:          "C14",
+		Level:       "other",
+		Run:         runC14,
 		Explanation: "Per-operation refinement (as C13): every operation of comp.SimpleBus, comp.BufferedBus, comp.Queue and comp.Broadcast is reduced to a normal form over the abstract state (pending/current latch; buffer of (availableFrom,item) + visible queue) and compared with the reference model spec/comp_bus.go.txt: Add stamps currentCycle+1, Connect moves an in-order prefix and stops at the first unavailable entry or at a full queue, Get pops the head, Pick removes the first match only, Revert prepends with currentCycle, Clean empties both, CanAdd/RemainingToAdd/IsEmpty are the stated functions of the lengths. Queue.Iterator (a goroutine) is decided structurally by R14.Iterator: channel capacity = Len(), front-to-back traversal, close on exit.",
 		Assumptions: []string{
 			"the capacity clause is conditional on producers calling Add only when CanAdd (a precondition of C14, reported as information only)",
